@@ -11,6 +11,7 @@ LEVEL_TEXT = ('fault enumeration: every kind of rejected call of a fixed '
               'fixed histories at every argument position; holds on '
               'everything explored')
 RULE = (
+    'DDDMP: a load of a damaged file that fails, then a valid load (engine of C16). Further kinds: new name at a used level, copy_vars with conflicting levels, max_nodes reached (with reordering requests off: see KNOWN_FINDINGS). '
     'MDD: rejected find_or_add / apply / ite calls inside generated MDD histories must leave the MDD tables untouched. '
     'H: Hypothesis histories (dd.bdd and dd.autoref, dynamic reordering '
     'off and on) as in C06/C08 into which rejected calls are injected: '
